@@ -212,16 +212,107 @@ Definition key_char (c : N) : bool :=
   is_digit c || ((65 <=? c) && (c <=? 90)) || ((97 <=? c) && (c <=? 122)) || (c =? 95).
 
 Lemma key_char_facts c : key_char c = true ->
-  valid_macro_char c = true /\ (c =? 37) = false /\ (c =? 125) = false /\ (c =? 46) = false.
+  valid_macro_char c = true /\ c <> 37 /\ c <> 125 /\ c <> 46.
 Proof.
-  unfold key_char, valid_macro_char, is_digit. intros H.
-  repeat (apply orb_true_iff in H as [H|H]);
-    repeat match goal with H : (_ && _) = true |- _ => apply andb_true_iff in H as [? ?] end;
-    repeat match goal with H : (_ <=? _) = true |- _ => apply N.leb_le in H end;
-    repeat match goal with H : (_ =? _) = true |- _ => apply N.eqb_eq in H end.
-  all: repeat split; try (apply N.eqb_neq; lia).
-  all: repeat (apply orb_true_iff; first [ left; solve [ apply N.eqb_eq; lia ]
-                                          | right; solve [ apply andb_true_iff; split; apply N.leb_le; lia ]
-                                          | right; solve [ apply N.eqb_eq; lia ]
-                                          | left | idtac ]).
-Abort.
+  unfold key_char, valid_macro_char, is_digit.
+  rewrite !orb_true_iff, !andb_true_iff, !N.leb_le, !N.eqb_eq. lia.
+Qed.
+
+Lemma mc_scan_step_valid c r prev cur toks :
+  valid_macro_char c = true -> c <> 37 -> c <> 125 -> r <> [] ->
+  mc_scan (c :: r) prev cur true toks = mc_scan r c (cur ++ [c]) true toks.
+Proof.
+  intros Hv H37 H125 Hr.
+  apply N.eqb_neq in H37, H125. cbn [mc_scan]. rewrite H37, H125, Hv. cbn [negb].
+  destruct r; [contradiction | reflexivity].
+Qed.
+
+Lemma mc_scan_step_key c r prev cur toks :
+  key_char c = true -> r <> [] ->
+  mc_scan (c :: r) prev cur true toks = mc_scan r c (cur ++ [c]) true toks.
+Proof.
+  intros Hc Hr. destruct (key_char_facts c Hc) as [Hv [H37 [H125 H46]]].
+  apply mc_scan_step_valid; assumption.
+Qed.
+
+Lemma mc_scan_open r prev cur ism toks :
+  mc_scan (37 :: 123 :: r) prev cur ism toks = mc_scan r 123 [] true (flush_text cur toks).
+Proof. reflexivity. Qed.
+
+Lemma mc_scan_close prev cur toks :
+  prev <> 46 ->
+  mc_scan [125] prev cur true toks =
+  (let '(var, key, _) := cut_byte 46 cur in
+   if bytes_eqb (lower_ascii var) (sstr "tx") then Some (toks ++ [MTx cur (lower_ascii key)]) else None).
+Proof.
+  intros H. apply N.eqb_neq in H. cbn [mc_scan]. 
+  change (125 =? 37) with false. change (125 =? 125) with true. cbn iota. rewrite H.
+  destruct (cut_byte 46 cur) as [[var key] f]. destruct (bytes_eqb (lower_ascii var) (sstr "tx")); reflexivity.
+Qed.
+
+Lemma last_nonempty_default {A} (x : A) k d1 d2 : last (x :: k) d1 = last (x :: k) d2.
+Proof.
+  revert x; induction k as [|y k IH]; intros x; [reflexivity|].
+  change (last (x :: y :: k) d1) with (last (y :: k) d1).
+  change (last (x :: y :: k) d2) with (last (y :: k) d2). apply IH.
+Qed.
+
+Lemma last_cons_default {A} (c : A) k d : last (c :: k) d = last k c.
+Proof.
+  destruct k as [|x k]; [reflexivity|].
+  change (last (c :: x :: k) d) with (last (x :: k) d). apply last_nonempty_default.
+Qed.
+
+Lemma mc_scan_key key : forall prev cur toks rest,
+  forallb key_char key = true ->
+  mc_scan (key ++ 125 :: rest) prev cur true toks
+  = mc_scan (125 :: rest) (last key prev) (cur ++ key) true toks.
+Proof.
+  induction key as [|c k IH]; intros prev cur toks rest H.
+  - cbn [app last]. rewrite app_nil_r. reflexivity.
+  - cbn [forallb] in H. apply andb_true_iff in H as [Hc Hk].
+    change ((c :: k) ++ 125 :: rest) with (c :: (k ++ 125 :: rest)).
+    rewrite mc_scan_step_key; [|exact Hc | destruct k; discriminate].
+    rewrite IH by exact Hk. rewrite last_cons_default, <- app_assoc. reflexivity.
+Qed.
+
+Lemma cut_byte_no_sep sep s :
+  forallb (fun c => negb (c =? sep)) s = true -> cut_byte sep s = (s, [], false).
+Proof.
+  induction s as [|c r IH]; cbn [forallb cut_byte]; [reflexivity|].
+  intros H. apply andb_true_iff in H as [Hc Hr]. apply negb_true_iff in Hc. rewrite Hc, IH by exact Hr.
+  reflexivity.
+Qed.
+
+Lemma last_key_char key d : key <> [] -> forallb key_char key = true -> last key d <> 46.
+Proof.
+  induction key as [|c k IH]; [contradiction|]. intros _ H.
+  cbn [forallb] in H. apply andb_true_iff in H as [Hc Hk].
+  destruct k as [|c2 k'].
+  - cbn. apply (key_char_facts c Hc).
+  - change (last (c :: c2 :: k') d) with (last (c2 :: k') d). apply IH; [discriminate | exact Hk].
+Qed.
+
+(* the argument "%{tx.KEY}" compiles to exactly one TX token with the lower-cased key *)
+Lemma macro_compile_tx_var key :
+  key <> [] -> forallb key_char key = true ->
+  macro_compile (sstr "%{tx." ++ key ++ [125])
+  = Some [MTx (sstr "tx." ++ key) (lower_ascii key)].
+Proof.
+  intros Hne Hk. unfold macro_compile.
+  change (sstr "%{tx." ++ key ++ [125]) with (37 :: 123 :: 116 :: 120 :: 46 :: key ++ [125]).
+  rewrite mc_scan_open. cbn [flush_text].
+  assert (Hr : key ++ [125] <> []) by (destruct key; discriminate).
+  rewrite mc_scan_step_valid; [|reflexivity|discriminate|discriminate|discriminate].
+  rewrite mc_scan_step_valid; [|reflexivity|discriminate|discriminate|discriminate].
+  rewrite mc_scan_step_valid; [|reflexivity|discriminate|discriminate|exact Hr].
+  cbn [app].
+  rewrite (mc_scan_key key 46 [116; 120; 46] [] [] Hk).
+  rewrite mc_scan_close by (apply last_key_char; assumption).
+  cbn [app cut_byte N.eqb Pos.eqb].
+  rewrite cut_byte_no_sep.
+  2:{ clear -Hk. induction key as [|c k IH]; [reflexivity|]. cbn [forallb] in *.
+      apply andb_true_iff in Hk as [Hc Hk]. rewrite (IH Hk), andb_true_r.
+      apply negb_true_iff, N.eqb_neq. apply (key_char_facts c Hc). }
+  reflexivity.
+Qed.
